@@ -284,6 +284,13 @@ def run(spec):
         return {'viol': list(V), 'evals': V.evals, 'nontrivial': False}
     # the resolver works on the hierarchy as built (glob children, extra variables)
     tree = plain_values(e.state.get_value())
+    # every variable of a glob child that the initial state names exists, with its value, at the node the glob
+    # port's sub-topology wires it to (what the ports read and write below is the hierarchy as built)
+    built = flat(tree)
+    lost = {'/'.join(map(str, p)): (v, built.get(tuple(p), 'MISSING')) for p, v in spec['leaves']
+            if str(p[0]).startswith('g') and built.get(tuple(p), 'MISSING') != v}
+    V.check('read_is_node_value', not lost,
+            lambda: ('nodes named in the initial state are missing from the hierarchy as built, or hold another value (given, built)', lost))
     wref = expand(topo.resolve(schema, tp, ppath[:-1], tree, writes=True), tree)
     rref = expand(topo.resolve(schema, tp, ppath[:-1], tree, writes=False), tree)
     order = sorted(wref, key=str)
